@@ -69,7 +69,7 @@ def check(case, res):
     started, succeeded, failed, skipped = m_lit
     for x in failed:
         o = case["outcomes"][str(x)]
-        labels.append("fail_exit" if "exit" in o else "fail_signal" if "signal" in o else "fail_launch_" + o["launch"])
+        labels.append("fail_exit" if "exit" in o else "fail_signal" if "signal" in o else "fail_combine_conflict" if "conflict" in o else "fail_launch_" + o["launch"])
         deps_of = [y for y in need if x in model._reach_strict(case, y)]
         indep = [y for y in need if y != x and x not in model._reach_strict(case, y) and y not in model._reach_strict(case, x)]
         if deps_of and indep:
@@ -118,7 +118,7 @@ def check(case, res):
         for t, msg in rep["failed"]:
             x = obs.idx_of.get(t)
             o = case.get("outcomes", {}).get(str(x))
-            if o and "launch" not in o and "(%d)" % graph.expected_code(o) not in msg:
+            if o and "launch" not in o and "conflict" not in o and "(%d)" % graph.expected_code(o) not in msg:
                 v.append(("wrong_code", "%s reported %r, its process ended with %d" % (t, msg, graph.expected_code(o))))
         want_status = 1 if failed else 0
         if res["status"] != want_status:
